@@ -15,6 +15,7 @@ import (
 	"regexp"
 	"sort"
 	"strings"
+	"time"
 
 	"github.com/sirupsen/logrus"
 
@@ -230,10 +231,15 @@ func main() {
 			Case *TaskCase `json:"case"`
 			Cli  *cliCase  `json:"cli"`
 			Cap  *capCase  `json:"cap"`
+			To   *toCase   `json:"to"`
 		}
 		common.ReadReplay(&rf)
 		bad := false
-		if rf.Cap != nil {
+		if rf.To != nil {
+			d := runTimeout(*rf.To)
+			fmt.Printf("timeout case %+v: %s\n", *rf.To, d)
+			bad = d != ""
+		} else if rf.Cap != nil {
 			d := runCapture(*rf.Cap)
 			fmt.Printf("capture case %+v: %s\n", *rf.Cap, d)
 			bad = d != ""
@@ -356,6 +362,8 @@ func main() {
 		}
 	case "capture":
 		captureUnit(res)
+	case "timeout", "timeout-serial":
+		timeoutUnit(res)
 	case "cli3":
 		cliUnit(res, 3, []int{1})
 	case "cli4":
@@ -501,6 +509,161 @@ func captureUnit(res *common.Result) {
 			for _, sh := range []string{"one", "two", "two-x2", "allowed-failure", "chain"} {
 				for _, ex := range []string{"", "MYVAR"} {
 					if do(capCase{Name: n, Payload: p, Shape: sh, Export: ex}) {
+						return
+					}
+				}
+			}
+		}
+	}
+	res.Nontrivial = int64(len(distinct))
+}
+
+// ---- C13: task timeout (real clock; the configuration space is enumerated, each configuration is observed under one real timing) ----
+
+type toCase struct {
+	TimeoutMs int    `json:"timeout_ms"`
+	Shape     string `json:"shape"`    // sleep, busy, trap, fast, share
+	Position  string `json:"position"` // "1","2","3","before","after"
+	Allow     bool   `json:"allow"`
+}
+
+func runTimeout(c toCase) string {
+	dir, err := os.MkdirTemp(".", "to")
+	if err != nil {
+		return "infra: " + err.Error()
+	}
+	defer os.RemoveAll(dir)
+	dir, _ = filepath.Abs(dir)
+	trace := filepath.Join(dir, "trace")
+	over := map[string]string{
+		"sleep": "sleep 60",
+		"busy":  "while :; do :; done",
+		"trap":  "sh -c 'trap \"\" INT; exec sleep 30'",
+	}[c.Shape]
+	mark := func(m string) string { return "echo " + m + " >> " + trace }
+	t := task.NewTask()
+	t.Name = "to"
+	d := time.Duration(c.TimeoutMs) * time.Millisecond
+	t.Timeout = &d
+	t.AllowFailure = c.Allow
+	var want []string
+	wantErr := false
+	switch c.Shape {
+	case "fast":
+		t.Before, t.After = []string{mark("b")}, []string{mark("a")}
+		t.Commands = []string{mark("m1"), mark("m2"), mark("m3")}
+		want = []string{"b", "m1", "m2", "m3", "a"}
+	case "share": // each command gets the full timeout: three commands of 0.4 T each
+		part := fmt.Sprintf("sleep %.2f", float64(c.TimeoutMs)*0.4/1000)
+		t.Commands = []string{part + "; " + mark("m1"), part + "; " + mark("m2"), part + "; " + mark("m3")}
+		want = []string{"m1", "m2", "m3"}
+	default:
+		t.Before, t.After = []string{mark("b")}, []string{mark("a")}
+		t.Commands = []string{mark("m1"), mark("m2"), mark("m3")}
+		switch c.Position {
+		case "before":
+			t.Before = []string{mark("b") + "; " + over}
+			want, wantErr = []string{"b"}, true
+		case "after":
+			t.After = []string{mark("a") + "; " + over}
+			want = []string{"b", "m1", "m2", "m3", "a"}
+		default:
+			p := int(c.Position[0] - '0')
+			t.Commands[p-1] = mark(fmt.Sprintf("m%d", p)) + "; " + over
+			want = []string{"b"}
+			for i := 1; i <= p; i++ {
+				want = append(want, fmt.Sprintf("m%d", i))
+			}
+			wantErr = true
+		}
+	}
+	r, err := runner.NewTaskRunner()
+	if err != nil {
+		return "infra: " + err.Error()
+	}
+	r.Stdout, r.Stderr, r.OutputFormat = io.Discard, io.Discard, output.FormatRaw
+	start := time.Now()
+	done := make(chan error, 1)
+	go func() { done <- r.Run(t) }()
+	var runErr error
+	limit := d + 10*time.Second
+	select {
+	case runErr = <-done:
+	case <-time.After(limit):
+		return fmt.Sprintf("KIND:not-terminated:Run still going %s after a %s timeout expired", limit, d)
+	}
+	elapsed := time.Since(start)
+	b, _ := os.ReadFile(trace)
+	got := strings.Fields(string(b))
+	if strings.Join(got, " ") != strings.Join(want, " ") {
+		if len(got) > len(want) {
+			return fmt.Sprintf("KIND:later-command-ran:markers %v, expected %v (elapsed %s)", got, want, elapsed.Round(time.Millisecond))
+		}
+		return fmt.Sprintf("KIND:fast-command-affected:markers %v, expected %v (elapsed %s)", got, want, elapsed.Round(time.Millisecond))
+	}
+	// a failing before hook makes Run return an error; which result fields it sets is not prescribed
+	if wantErr && (runErr == nil || (!t.Errored && c.Position != "before")) {
+		return fmt.Sprintf("KIND:overrun-not-reported:Run returned %v, Errored=%v after the command overran its timeout (allow_failure=%v)", runErr, t.Errored, c.Allow)
+	}
+	if !wantErr && (runErr != nil || t.Errored) {
+		return fmt.Sprintf("KIND:spurious-failure:Run returned %v, Errored=%v although every command finished within the timeout (elapsed %s)", runErr, t.Errored, elapsed.Round(time.Millisecond))
+	}
+	return ""
+}
+
+func timeoutUnit(res *common.Result) {
+	var idx int64
+	distinct := map[string]bool{}
+	do := func(c toCase) bool {
+		idx++
+		if !common.Mine(idx) {
+			return false
+		}
+		res.Evaluations++
+		distinct[fmt.Sprint(c.Shape, c.Position, c.Allow)] = true
+		if res.Evaluations%5 == 1 {
+			res.AddSample(c)
+		}
+		d := runTimeout(c)
+		if strings.HasPrefix(d, "infra:") {
+			fmt.Fprintln(os.Stderr, d)
+			os.Exit(2)
+		}
+		if d == "" {
+			return false
+		}
+		// a timing-sensitive verdict is only believed if it fails every time (5 serial re-runs)
+		for i := 0; i < 5; i++ {
+			if runTimeout(c) == "" {
+				res.Notes = append(res.Notes, fmt.Sprintf("flaky_timing: %+v failed once (%s) and passed on re-run", c, d))
+				return false
+			}
+		}
+		parts := strings.SplitN(d, ":", 3)
+		return res.AddViolation(common.Violation{Property: "C13", Key: fmt.Sprintf("C13:%s|shape=%s|position=%s|allow=%v|timeout=%dms", parts[1], c.Shape, c.Position, c.Allow, c.TimeoutMs), Desc: fmt.Sprintf("%+v: %s", c, parts[2]), Config: c},
+			map[string]interface{}{"harness": "taskrun", "mode": "plain", "property": "C13", "to": c})
+	}
+	timeouts := []int{100, 1000}
+	if *common.Tier == "thorough" {
+		timeouts = []int{100, 300, 1000}
+	}
+	if *common.Unit == "timeout-serial" {
+		for _, ms := range []int{1000, 500} {
+			if do(toCase{TimeoutMs: ms, Shape: "share"}) {
+				break
+			}
+		}
+		res.Nontrivial = int64(len(distinct)) + 1
+		return
+	}
+	for _, ms := range timeouts {
+		if do(toCase{TimeoutMs: ms, Shape: "fast"}) {
+			return
+		}
+		for _, shape := range []string{"sleep", "busy", "trap"} {
+			for _, pos := range []string{"1", "2", "3", "before", "after"} {
+				for _, allow := range []bool{false, true} {
+					if do(toCase{TimeoutMs: ms, Shape: shape, Position: pos, Allow: allow}) {
 						return
 					}
 				}
